@@ -476,6 +476,9 @@ class Splicer:
             elif name == "body_start":
                 ghost_check(slines, "body_start")
                 ins(toks[body_open].end, "\n" + block + "\n", "ghost", **meta)
+            elif name == "body_end":
+                ghost_check(slines, "body_end")
+                ins(toks[body_close].start, "\n" + block + "\n", "ghost", **meta)
             elif name == "loop":
                 m = re.match(r"\s*(\d+)(.*)", args)
                 if not m:
